@@ -37,6 +37,24 @@ func coalescerCase(cc ccase) map[string]any {
 	window := time.Duration(cc.WindowUs) * time.Microsecond
 	co := state.NewCoalescer(window)
 	k := newClock()
+	// Strobe and Terminate run in their own goroutines under a watchdog; one expiry per case is waited
+	// out in full, later ones only briefly; stuck goroutines are leaked
+	over := false
+	guard := func(f func()) (int64, int64, bool) {
+		var s0, s1 int64
+		done := make(chan struct{})
+		outer := k.us()
+		go func() { s0 = k.us(); f(); s1 = k.us(); close(done) }()
+		d := coalescerWatchdog
+		if over {
+			d = 300 * time.Millisecond
+		}
+		if waitOrTimeout(done, d) {
+			return s0, s1, true
+		}
+		over = true
+		return outer, k.us(), false
+	}
 	strobes := []map[string]any{}
 	recvs := []map[string]any{}
 	terms := []map[string]any{}
@@ -103,12 +121,9 @@ func coalescerCase(cc ccase) map[string]any {
 	for _, op := range cc.Script {
 		switch op.Op {
 		case "strobe":
-			t0 := k.us()
-			lastStrobeT0 = t0
-			done := make(chan struct{})
-			go func() { co.Strobe(); close(done) }()
-			ok := waitOrTimeout(done, coalescerWatchdog)
-			strobes = append(strobes, map[string]any{"t0": t0, "t1": k.us(), "ret": ok})
+			lastStrobeT0 = k.us()
+			t0, t1, ok := guard(co.Strobe)
+			strobes = append(strobes, map[string]any{"t0": t0, "t1": t1, "ret": ok})
 		case "sleep":
 			time.Sleep(time.Duration(op.Us) * time.Microsecond)
 		case "recv":
@@ -133,11 +148,8 @@ func coalescerCase(cc ccase) map[string]any {
 				}
 			}
 		case "terminate":
-			t0 := k.us()
-			done := make(chan struct{})
-			go func() { co.Terminate(); close(done) }()
-			ok := waitOrTimeout(done, coalescerWatchdog)
-			terms = append(terms, map[string]any{"t0": t0, "t1": k.us(), "ret": ok})
+			t0, t1, ok := guard(co.Terminate)
+			terms = append(terms, map[string]any{"t0": t0, "t1": t1, "ret": ok})
 		}
 	}
 	if cc.Bg {
@@ -289,7 +301,14 @@ func runCoalescer(c *vlib.Ctx) error {
 func replayCoalescer(c *vlib.Ctx, begin map[string]any) error {
 	var cc ccase
 	vlib.Decode(begin["in"], &cc)
-	rec := coalescerCase(cc)
-	emitCoalescerCase(c, 0, cc, rec)
+	// timing decides: run the case a few times, until a watchdog expired
+	for i := 0; i < 3; i++ {
+		before := overruns.Load()
+		rec := coalescerCase(cc)
+		emitCoalescerCase(c, i, cc, rec)
+		if overruns.Load() > before {
+			break
+		}
+	}
 	return nil
 }
